@@ -113,6 +113,7 @@ static void c13_sym(Buf *b) {
     }
     c13_flush(b, h);
 }
+#include "scen_c13x.h"
 /* RSA-2048 general-purpose key (scheme NULL) and ECC P-256 signing key: public parts are parsed from the response */
 static void c13_asym(Buf *b) {
     Buf t = {0};
@@ -156,6 +157,7 @@ static void c13_asym(Buf *b) {
                     Rsp vr = run(&v); fprintf(g_tr, " verify%d=%u", bad, vr.rc); b_free(&v); } }
             tr_end();
         }
+        if (nl == 256) c13_rsa_pad(b, h, mod);
         c13_flush(b, h);
     } else tr("rsaenc rc=%u note=nokey", r.rc);
     /* ECC P-256 ECDSA */
@@ -191,7 +193,8 @@ static void scen_c13(int rounds, int nasym) {
         tr("hist %d", h);
         tpm2_fresh(h == 0 ? NULL : (h == 1 ? PROFILE_DEFAULT_V1 : PROFILE_CUSTOM)); tpm2_startup(&b, 0);
         for (int i = 0; i < rounds; i++) {
-            switch (rnd(8)) { case 0: case 1: c13_hash(&b); break; case 2: c13_hmac(&b); break; case 3: case 4: case 5: c13_sequence(&b); break; default: c13_sym(&b); break; }
+            switch (rnd(12)) { case 0: case 1: c13_hash(&b); break; case 2: c13_hmac(&b); break; case 3: case 4: case 5: c13_sequence(&b); break;
+                case 8: case 9: c13_sym2(&b); break; case 10: c13_ecc(&b); break; default: c13_sym(&b); break; }
         }
         if (h < nasym) c13_asym(&b);
     }
